@@ -29,9 +29,9 @@ EPSS = [1e-6, 1e-4, 0.1]
 
 
 def bound(tier):
-    return ("all PWMs of width 1..3 over the 7-column palette (rotated character order per column) x 6 bin sizes (incl. non-integer reciprocals 0.3, 0.07) x 3 eps; widths 6, 10"
+    return ("all PWMs of width 1..3 over the 7-column palette (rotated character order per column) x 6 bin sizes (incl. non-integer reciprocals 0.3, 0.07) x 3 eps; widths 6, 10, 16"
             if tier == "quick" else
-            "all PWMs of width 1..5 over the 7-column palette x 6 bin sizes x 3 eps; widths 6, 7 (brute force) and 10, 20, 30 (DP)")
+            "all PWMs of width 1..5 over the 7-column palette x 6 bin sizes x 3 eps; widths 6, 7 (brute force) and 10, 13, 16, 20, 30 (DP)")
 
 
 def shards(tier, seed):
@@ -41,8 +41,9 @@ def shards(tier, seed):
         parts = 1 if w <= 3 else (7 if w == 4 else 49)
         for p in range(parts):
             out.append(dict(name="w%d/%d" % (w, p), w=w, part=p, parts=parts, weight=7 ** w // parts))
-    for w in ((6, 10) if tier == "quick" else (6, 7, 10, 20, 30)):
+    for w in ((6, 10, 16) if tier == "quick" else (6, 7, 10, 13, 16, 20, 30)):
         out.append(dict(name="long/w%d" % w, w=w, long=True, weight=4 ** min(w, 7)))
+    out.append(dict(name="fimo_history", fimo_history=True, w=0, weight=800))
     return out
 
 
@@ -106,6 +107,12 @@ def check_table(rec, case, pwm, bin_size, eps, brute):
 
 def run_shard(sh, tier, seed):
     rec = Recorder(PID, sh["name"])
+    if sh.get("fimo_history"):
+        # the tables as used inside fimo(): p-values of reported hits over a call history that varies eps / bin size / PWM values under
+        # the same motif names (a table kept from an earlier call would show up as a wrong p-value)
+        from mc.props import c12
+        c12.run_history(rec, tier, seed)
+        return rec.result()
     w = sh["w"]
     if sh.get("long"):
         pats = [[(i * (k + 2) + k) % 7 for i in range(w)] for k in range(4)] + [[1] * w, [0] * w, [4] * (w - 1) + [1]]
@@ -132,6 +139,11 @@ def run_shard(sh, tier, seed):
 def replay(v):
     c = v["case"]
     rec = Recorder(PID, "replay")
+    if "history_order" in c:
+        from mc.props import c12
+        c12.run_history(rec, "quick", 0)
+        hit = [x for x in rec.violations if x["sig"] == v["sig"]]
+        return (not hit), "replayed the fimo call history: %d violations with signature %s" % (len(hit), v["sig"])
     check_table(rec, dict(c), build_pwm(c["cols"], c.get("rotated", True)), c["bin_size"], c["eps"], brute=len(c["cols"]) <= 7)
     return (not rec.violations), "_pwm_to_mapping(PWM from palette columns %s, bin_size=%s, eps=%s): %s" % (
         c["cols"], c["bin_size"], c["eps"], rec.violations[:1] or "table equals the exact tail distribution")
